@@ -46,7 +46,6 @@ Fixpoint ostats_prefix (a b : list (option stat)) : bool :=
   | x :: a', y :: b' => ostat_eqb x y && ostats_prefix a' b'
   | _ :: _, [] => false
   end.
-Definition full_stats (exp : list entry) : list (option stat) := map (fun e => Some (fst e)) exp ++ [None].
 
 (* stat_sequence: the STATs sent are the expected ones in order then one empty STAT
    (all of them when the call succeeded, a prefix otherwise) *)
@@ -76,14 +75,14 @@ Fixpoint data_part (c : bytes) (chunks : list bytes) : bool :=
 
 Definition no_in (tr : list event) : bool := forallb (fun e => negb (is_in e)) tr.
 
-(* data_per_request + bad_ids_fail, for every In (REQ n) of the trace, with
+(* data_per_request + bad_ids_fail, for every Inp (REQ n) of the trace, with
    k = STATs sent before it, reqd = ids requested before it, dseen = ids with DATA before it *)
 Fixpoint c_reqs (exp : list entry) (ok : bool) (k : nat) (reqd dseen : list N) (tr : list event) : bool :=
   match tr with
   | [] => true
   | e :: r =>
     match e with
-    | In (PReq n) =>
+    | Inp (PReq n) =>
       let fresh := negb (memN n reqd) in
       let reg := if N.leb n (N.of_nat k) then regular_at exp (N.to_nat n) else None in
       let bad := negb fresh || match reg with None => true | Some _ => false end in
@@ -100,7 +99,7 @@ Fixpoint c_reqs (exp : list entry) (ok : bool) (k : nat) (reqd dseen : list N) (
     end
   end.
 
-Definition is_in_fin (e : event) : bool := match e with In PFin => true | _ => false end.
+Definition is_in_fin (e : event) : bool := match e with Inp PFin => true | _ => false end.
 Definition is_out_fin (e : event) : bool := match e with Out PFin => true | _ => false end.
 Definition count {A} (f : A -> bool) (l : list A) : nat := length (filter f l).
 (* everything after the first element satisfying f *)
@@ -141,7 +140,7 @@ Fixpoint has_cause (exp : list entry) (k : nat) (reqd : list N) (tr : list event
   | [] => false
   | e :: r =>
     match e with
-    | In (PReq n) =>
+    | Inp (PReq n) =>
       if memN n reqd then true
       else if N.ltb n (N.of_nat k) then
         match regular_at exp (N.to_nat n) with
@@ -149,7 +148,7 @@ Fixpoint has_cause (exp : list entry) (k : nat) (reqd : list N) (tr : list event
         | None => true
         end
       else true
-    | In (PErr _) | InEof | Fault => true
+    | Inp (PErr _) | InEof | Fault => true
     | Out (PStat (Some _)) => has_cause exp (S k) reqd r
     | _ => has_cause exp k reqd r
     end
